@@ -1,6 +1,7 @@
 """C04 links and monitors: exactly one notification when the target goes away."""
 
 IMPORTS = "From Ergo Require Import Common.Base Rel.Amap Rel.Model Rel.Cases.\nLocal Open Scope N_scope."
+IMPORTS_ILV = "From Ergo Require Import Common.Base Rel.Amap Rel.Model Rel.RaceGen Rel.RaceGenCases.\nLocal Open Scope N_scope."
 
 
 def _eval(c, sub, out, search=False):
@@ -10,6 +11,11 @@ def _eval(c, sub, out, search=False):
     elif sub == "hist":
         c.cases("hist" + ("-search" if search else ""), out, IMPORTS, "hcase",
                 corr=[] if search else ["corr_hist"], spec=["spec_hist_c04"], premise=["premise_hist"])
+    elif sub == "ilv":
+        # every interleaving of a link/monitor request with every remover of its target (real node,
+        # threads parked at the target manager calls); the corpus is the exhaustive enumeration
+        c.cases("ilv" + ("-search" if search else ""), out, IMPORTS_ILV, "rcase",
+                corr=[] if search else ["corr_ilv"], spec=["spec_ilv"], premise=["premise_ilv"])
     elif sub == "race":
         # Go monitor only; failures not about link/monitor requests belong to C06
         out["monitor"] = [m for m in (out.get("monitor") or [])
@@ -20,7 +26,7 @@ def _eval(c, sub, out, search=False):
 def run(c):
     c.proofs("theories/Properties/C04.v", clean=(c.tier == "thorough"))
     quick = c.tier == "quick"
-    n = {"tm": 300 if quick else 4000, "hist": 250 if quick else 3000, "race": 1500 if quick else 30000}
+    n = {"tm": 300 if quick else 4000, "hist": 250 if quick else 3000, "race": 1500 if quick else 30000, "ilv": 0}
     if c.replay:
         import json
         eng = (json.load(open(c.replay)).get("engine") or "tm")
@@ -29,14 +35,14 @@ def run(c):
         if out:
             _eval(c, sub, out)
         return
-    for sub in ("tm", "hist", "race"):
+    for sub in ("ilv", "tm", "hist", "race"):
         out = c.harness("rel", [sub, "-n", str(n[sub])], timeout=900)
         if out:
             _eval(c, sub, out)
     if c.broken and not c.violations:
         # something no longer checks: spend the extra search budget looking for a failing input
         keep = list(c.broken)
-        for sub in ("tm", "hist", "race"):
+        for sub in ("ilv", "tm", "hist", "race"):
             out = c.harness("rel", [sub, "-n", str(n[sub] * (10 if quick else 3))], timeout=1500,
                             env={"VERIF_SEED": str(c.seed + 7919)})
             if out:
@@ -46,12 +52,16 @@ def run(c):
         c.broken = keep + [b for b in c.broken if b not in keep]
     c.cov["rule"] = ("distinct = different Coq case term (tm: method-call sequence with answers; hist: operation history with "
                      "observations); non-trivial = tm: some cleanup reported a relation, hist: a process terminated and some "
-                     "actor handled an exit/down message; race runs are counted as evaluations only")
+                     "actor handled an exit/down message; ilv: (remover kind, link/monitor, schedule) with the observed outcome, non-trivial = the "
+                     "schedule is a true interleaving (neither thread ran to its end before the other started) and the remover takes "
+                     "the requested target away; race runs are counted as evaluations only")
     c.assumptions += [
         "Go map iteration order is unspecified: lists returned by the target manager and the notifications one operation sends to one actor are compared as multisets",
         "observer actors are act.Actor with TrapExit: an exit signal of the parent terminates them (modelled: s_pending/OCascade, act/actor.go switch); what a dying actor still has in its mailbox is not observed",
         "histories are sequential: the harness waits for quiescence (ping round over all live actors, Terminate callbacks) after every operation",
         "race theorem: the requester is not the terminating process and stays alive; Go sync.Map / atomic operations are linearizable (each model step = one such operation or one critical section of the target manager mutex)",
+        "race theorems for all removers (C04_race_any_remover, C04_race_exactly_one): two threads - one request, one remover (unregisterProcess, node.UnregisterName, process.DeleteAlias, unregisterEvent); nobody else writes the node tables meanwhile, so 'Load, owner check, Delete' / LoadAndDelete of a remover is one step; the drain (CleanupTarget + the sends) is one step: the snapshot is taken under the target manager mutex and the requester never reads mailboxes",
+        "interleaving runs (ilv): the threads are parked inside a wrapper of the real target manager (before/after Add*, before Remove*, before/after CleanupTarget) installed through NodeOptions.TargetManager; kill scenarios start at the unreg.delete yield point (state word of the owner already Terminated); the code between two parking points is one model step",
         "remote targets: only the target manager (CleanupNode) is modelled here; network frames belong to C14",
         "history-level theorems (C04_sequential_hist, C04_history_total): operations are atomic and the 64-bit process id counter does not wrap (nextpid + number of operations < 2^64); meta-process aliases and event consumer counters are outside the model",
     ]
